@@ -276,6 +276,11 @@ func Run(c *core.Ctx, replay string) (*core.Result, error) {
 			}
 			mixed = append(mixed, lc)
 		}
+		// an erroneous last file that follows a regular file of the SAME directory: what was found for the first must
+		// not answer for the second
+		for _, kind := range []string{"nongo", "missing", "typeerror"} {
+			mixed = append(mixed, lcase{Request: [][]string{{"foo"}, {"foo"}}, Kind: kind}, lcase{Request: [][]string{{"a"}, {"foo", "a"}, {"foo", "a"}}, Kind: kind, Rel: true})
+		}
 		for _, lc := range mixed {
 			lc.Case = len(cases) + 1
 			cases = append(cases, lc)
